@@ -75,7 +75,7 @@ def run(ctx):
     jobs += feljobs
     jobs.append(dict(module="KAT_EC", name="KAT_EC", constants={}, init_next=("Init", "Next"), workers=1, timeout=600, heap="1g"))
     jobs += toys
-    ctx.tlc_many(jobs, parallel=len(jobs))
+    ctx.tlc_many(jobs, parallel=min(len(jobs), 10 if quick else 8))   # every job is a JVM with its own heap
     # the toy check must be able to fail: a wrong group order has to be refuted
     neg = ctx.tlc(**dict(toy_job("p79", False, 1, [0, 1], 2, Ni=73), allow_fail=True))
     ctx.tlc_runs.remove(neg)
